@@ -332,6 +332,10 @@ def dynCalls : List (String × Nat × Nat) := [("CBlock.Walk", 1, 0), ("ChainDat
     expected none -/
 def rmwSplits : List (String × String) := []
 
+/-- goroutine / deferred function literals inside a loop that read the loop's variable (go.mod `go 1.14`: one variable shared
+    by all iterations), as `(package:function, variable)`; scanned on every run (`loopvar` ops).  None in /repo. -/
+def loopvarCaptures : List (String × String) := []
+
 /-- functions that can return still holding a lock they took (expected: only the deliberate lock-handing wrapper) -/
 def lockLeaks : List (String × String) := [("TrieDatabase.Lock", "TrieDatabase.lock")]
 
